@@ -153,5 +153,36 @@ def run_impl(case):
     sim.add_testbench(tb)
     sim.run()
     lines.append("end")
+    if lib.rng_for(case["seed"], case["idx"], 1646).random() < 0.25:
+        # the clock domain is reset in the middle of a run (ResetInserter) while the pins stay high: the Input register still
+        # reports each pin's level `input_stages` cycles ago — the synchroniser holds no state that a reset may clear
+        from amaranth import Module, Signal, ResetInserter
+        stats["reset_experiment"] = 1
+        m2 = Module()
+        rst = Signal()
+        m2.submodules.dut = ResetInserter(rst)(dut)
+        d2 = Signal(name="verif_dummy"); m2.d.sync += d2.eq(~d2)
+        sim2 = Simulator(m2)
+        sim2.add_clock(1e-6)
+        got = []
+
+        async def tb2(ctx):
+            for k_ in range(n):
+                ctx.set(dut.pins[k_].i, 1)
+            for _ in range(stages + 3):
+                await ctx.tick()
+            ctx.set(rst, 1)
+            await ctx.tick()
+            ctx.set(rst, 0)
+            ctx.set(bus.addr, real["Input"][0]); ctx.set(bus.r_stb, 1)       # first cycle after the reset: read chunk 0 of Input
+            await ctx.tick()
+            ctx.set(bus.r_stb, 0)
+            got.append(ctx.get(bus.r_data))
+        sim2.add_testbench(tb2)
+        sim2.run()
+        want = ((1 << n) - 1) & cm
+        if got != [want]:
+            fails.append(("C16", f"pins held high for {stages + 4} cycles, clock domain reset, Input read in the next cycle: chunk 0 reads "
+                                 f"{got[0]:#x}, expected {want:#x} (every pin was high {stages} cycle(s) before)", 0))
     return {"lines": lines, "obs": obs, "fails": fails, "stats": stats, "key": lines[0] + style + str(case["idx"]),
             "descr": f"pins={n} dw={dw} addr_width={aw} input_stages={stages} style={style}"}
